@@ -380,6 +380,30 @@ func ParseInt(s string) (Number, error) {
 	return n, err
 }
 
+// parseIntegerValue returns s as a Number with FractionDigits=0.  Unlike
+// ParseInt it accepts only the integer-value syntax of RFC 7950: decimal
+// digits, optionally preceded by a minus sign.
+func parseIntegerValue(s string) (Number, error) {
+	s = strings.TrimSpace(s)
+	var n Number
+	switch s {
+	case "":
+		return n, errors.New("converting empty string to number")
+	case "-":
+		return n, errors.New("sign with no value")
+	}
+
+	ns := s
+	if s[0] == '-' {
+		n.Negative = true
+		ns = s[1:]
+	}
+
+	var err error
+	n.Value, err = strconv.ParseUint(ns, 10, 64)
+	return n, err
+}
+
 // ParseDecimal returns s as a Number with a non-zero FractionDigits.
 // octal, or hexadecimal using the standard prefix notations (e.g., 0 and 0x)
 func ParseDecimal(s string, fracDigRequired uint8) (n Number, err error) {
@@ -478,7 +502,7 @@ func (y YangRange) parseChildRanges(s string, decimal bool, fracDigRequired uint
 		case decimal:
 			return ParseDecimal(s, fracDigRequired)
 		default:
-			return ParseInt(s)
+			return parseIntegerValue(s)
 		}
 	}
 
